@@ -6,6 +6,7 @@ import re
 import collections
 from ..core import Result
 from ..pm import AnalysisError, unparse
+from ..match import Code
 from ..rat import (Ev, Rat, Sym, Poly, fn_eval, rat_eq, Inconclusive, ONE,
                    ZERO, const_of)
 
@@ -269,7 +270,7 @@ def formula_dispatch(ctx):
                              construct=f'missing {fn}'))
     pf = cls.methods['_parse_file']
     res.saw(pf)
-    psrc = unparse(pf.node, 8000)
+    psrc = Code(P, pf)
     prefixes = []
     exact = []
     for n in ast.walk(pf.node):
@@ -314,7 +315,7 @@ def formula_dispatch(ctx):
                              'n() does not dispatch on the stored relation '
                              'type', construct='n() dispatch'))
     sft = cls.methods['_set_formula_type']
-    s2 = unparse(sft.node, 999)
+    s2 = Code(P, sft)
     if 'self._n_formula = formula_type' in s2 and 'raise ValueError' in s2 and \
             'self._n_formula is None' in s2:
         res.ok('_set_formula_type stores the type once, raises on a second')
@@ -543,7 +544,7 @@ def lookup_literal(ctx):
     if n < 2:
         raise AnalysisError('no str.contains filter found in '
                             '_find_material_matches')
-    src = unparse(f.node, 8000)
+    src = Code(P, f)
     checks = [
         ("sort_values(by='similarity_score')" in src and
          'ascending=False' not in src, 'rows sorted by ascending distance'),
@@ -562,7 +563,7 @@ def lookup_literal(ctx):
                                  construct='ranking: ' + what))
     g = P.func('Material._retrieve_file')
     res.saw(g)
-    s2 = unparse(g.node, 4000)
+    s2 = Code(P, g)
     if "filtered_df.loc[0, 'filename']" in s2 and \
             'filtered_df.loc[0].to_dict()' in s2:
         res.ok('row 0 (best match) supplies filename and material_data')
@@ -572,7 +573,7 @@ def lookup_literal(ctx):
                              construct='_retrieve_file row 0'))
     lv = P.func('Material._levenshtein_distance')
     res.saw(lv)
-    s3 = unparse(lv.node, 4000)
+    s3 = Code(P, lv)
     lchecks = [
         ('distance_matrix[i][0] = i' in s3 and 'distance_matrix[0][j] = j' in s3,
          'boundary rows'),
